@@ -267,7 +267,11 @@ func keyOf(ci ssa.CallInstruction) string {
 	return npath(args[0])
 }
 
-func c14RMW(c *Ctx, roots map[string][]*ssa.Function) {
+func c14RMW(c *Ctx, roots map[string][]*ssa.Function) { c14RMWAs(c, roots, "C14/R2", "") }
+
+// c14RMWAs runs the read-modify-write rule under the given rule id; `only` restricts it to one durable key (used by the
+// properties that rest on the all-rounds blob being updated atomically: C07, C19).
+func c14RMWAs(c *Ctx, roots map[string][]*ssa.Function, rule, only string) {
 	r := c.R
 	// functions that (transitively, inside their own package) read key k and write key k
 	var sites []rmwSite
@@ -308,7 +312,9 @@ func c14RMW(c *Ctx, roots map[string][]*ssa.Function) {
 	sort.Slice(sites, func(i, j int) bool {
 		return load.FuncName(sites[i].fn)+sites[i].key < load.FuncName(sites[j].fn)+sites[j].key
 	})
-	r.Count("rmw_sites", len(sites))
+	if only == "" {
+		r.Count("rmw_sites", len(sites))
+	}
 	// group by durable key: functions that read-modify-write the same key conflict with each other
 	type grp struct {
 		sites []rmwSite
@@ -334,6 +340,9 @@ func c14RMW(c *Ctx, roots map[string][]*ssa.Function) {
 		}
 	}
 	for _, k := range sortedKeys(groups) {
+		if only != "" && k != only {
+			continue
+		}
 		g := groups[k]
 		var names []string
 		for _, s := range g.sites {
@@ -342,7 +351,7 @@ func c14RMW(c *Ctx, roots map[string][]*ssa.Function) {
 		sort.Strings(names)
 		rootList := sortedKeys(g.roots)
 		if len(rootList) < 2 {
-			r.OKd("C14/R2", "rmw:"+k, "read-modify-write of key "+k+" is confined to one goroutine root", "", "functions: "+strings.Join(names, ",")+"; roots: "+strings.Join(rootList, ","))
+			r.OKd(rule, "rmw:"+k, "read-modify-write of key "+k+" is confined to one goroutine root", "", "functions: "+strings.Join(names, ",")+"; roots: "+strings.Join(rootList, ","))
 			continue
 		}
 		// every function of the group must hold the same receiver mutex from before the read until after the write
@@ -358,11 +367,11 @@ func c14RMW(c *Ctx, roots map[string][]*ssa.Function) {
 		}
 		sort.Strings(unprotected)
 		ok := len(unprotected) == 0 && len(mutexes) == 1
-		r.Check(ok, "C14/R2", "rmw:"+k, "every read-modify-write of key "+k+" holds one common lock across the read and the write", "",
+		r.Check(ok, rule, "rmw:"+k, "every read-modify-write of key "+k+" holds one common lock across the read and the write", "",
 			"key "+k+" is read-modified-written by "+strings.Join(names, ", ")+", reachable from the "+strings.Join(rootList, " and the ")+" goroutines; not protected by a common lock: "+strings.Join(unprotected, "; ")+sprintf(" (locks seen: %v)", sortedKeys(mutexes))+" — an update made by the other goroutine between a read and its write-back is lost")
 	}
 	if len(sites) < 3 {
-		r.Unknown("C14/R2", "rmw:census", "read-modify-write sites are visible", "", sprintf("%d sites", len(sites)))
+		r.Unknown(rule, "rmw:census", "read-modify-write sites are visible", "", sprintf("%d sites", len(sites)))
 	}
 }
 
